@@ -103,6 +103,8 @@ SIGS = [
     [("ns::Other", "o", None)],
     [],
     [("char", "c", None), ("bool", "flag", "true")],
+    [("const ns::Cam<ns::Other>&", "cam", None)],                # these two differ only INSIDE the parameter's template arguments
+    [("const ns::Cam<ext::Root>&", "cam", None)],
 ]
 NSIG = len(SIGS)
 OROLES = ["function", "method", "static", "constructor"]
@@ -139,11 +141,11 @@ def check_overloads(role, i, j, k, nsdepth, pattern=0):
 
 def c05_overload_groups(role: int, i: int, j: int, k: int, nsdepth: int) -> bool:
     """
-    Three overloads of one name (free function / method / static method / constructor) drawn from 7 parameter lists that
+    Three overloads of one name (free function / method / static method / constructor) drawn from 9 parameter lists that
     include pairs with the same MATLAB argument guard (int vs size_t, the short form of a defaulted overload), followed by
     another function: every call site reaches a routine of the same arity AND of the argument classes it guards for.
     pre: 0 <= role < 4 and 0 <= i < NSIG and 0 <= j < NSIG and 0 <= k < NSIG and i != j and j != k and i != k and 0 <= nsdepth <= 2
-    pre: THOROUGH or (i + j + k + role) % 2 == 0
+    pre: THOROUGH or (i + 2 * j + 3 * k + role) % 4 == 0
     post: _
     """
     role, i, j, k = pick(role, 0, 4), pick(i, 0, NSIG), pick(j, 0, NSIG), pick(k, 0, NSIG)
@@ -230,8 +232,8 @@ def conds(tier):
     return [
         xh.Cond(M, "c05_one_class", t(420, 3000), path_timeout=60, kind="shape-bounded", examples=["code=101, boost=1, ser=1, nsdepth=1", "code=383, boost=0, ser=0, nsdepth=2"],
                 bounds="all %d class shapes%s" % (NC, " x both serialization settings x serialize marker (namespace depth derived)" if not q else "; serialization / marker / namespace depth derived from the shape code")),
-        xh.Cond(M, "c05_overload_groups", t(420, 1800), path_timeout=60, kind="shape-bounded", examples=["role=0, i=2, j=0, k=3, nsdepth=0", "role=0, i=0, j=1, k=3, nsdepth=0", "role=0, i=3, j=4, k=5, nsdepth=1", "role=0, i=1, j=3, k=5, nsdepth=0", "role=1, i=0, j=1, k=4, nsdepth=1", "role=3, i=5, j=2, k=6, nsdepth=2", "role=2, i=6, j=1, k=0, nsdepth=0"],
-                bounds="4 roles x %s ordered triples of 7 parameter lists (same-guard pairs included)%s" % ("all" if not q else "every second of the", " x namespace depth 0-2" if not q else "; namespace depth derived")),
+        xh.Cond(M, "c05_overload_groups", t(420, 1800), path_timeout=60, kind="shape-bounded", examples=["role=0, i=2, j=0, k=3, nsdepth=0", "role=0, i=0, j=1, k=3, nsdepth=0", "role=0, i=3, j=4, k=5, nsdepth=1", "role=0, i=1, j=3, k=5, nsdepth=0", "role=1, i=7, j=8, k=0, nsdepth=0", "role=0, i=8, j=7, k=3, nsdepth=1", "role=2, i=0, j=7, k=8, nsdepth=0", "role=3, i=7, j=2, k=8, nsdepth=0", "role=1, i=0, j=1, k=4, nsdepth=1", "role=3, i=5, j=2, k=6, nsdepth=2", "role=2, i=6, j=1, k=0, nsdepth=0"],
+                bounds="4 roles x %s ordered triples of 7 parameter lists (same-guard pairs included)%s" % ("all" if not q else "every fourth of the", " x namespace depth 0-2" if not q else "; namespace depth derived")),
         xh.Cond(M, "c05_same_leaf", t(300, 1800), path_timeout=60, kind="shape-bounded", examples=["a=3, b=4, layout=2, virt=1, derive=0", "a=1, b=1, layout=0, virt=1, derive=1", "a=7, b=2, layout=3, virt=0, derive=0"],
                 bounds="%s class-shape pairs under one unqualified name x 4 namespace layouts x virtual x derived" % ("%d x %d" % (NREP, NREP) if not q else "%d (second derived)" % NREP)),
         xh.Cond(M, "c05_two_classes", t(420, 3000), path_timeout=60, kind="shape-bounded", examples=["a=3, b=77, fshape=2, boost=0", "a=7, b=383, fshape=3, boost=1"],
